@@ -17,6 +17,8 @@ for mid in ids:
     meta = json.load(open(os.path.join(d, "meta.json")))
     if not meta.get("verified", {}).get("confirmed"):
         continue
+    if mid in results and results[mid].get("caught_by") and "--redo" not in sys.argv:
+        continue
     prop = mid.split("-")[0]
     wt = f"/tmp/mutrun_{mid}"
     out = f"/tmp/mutout_{mid}"
@@ -25,7 +27,10 @@ for mid in ids:
     subprocess.call(["git", "-C", "/repo", "worktree", "remove", "--force", wt], stderr=subprocess.DEVNULL)
     subprocess.check_call(["git", "-C", "/repo", "worktree", "add", "-q", "--detach", wt, "HEAD"])
     try:
-        subprocess.check_call(["git", "-C", wt, "apply", os.path.join(d, "patch.diff")])
+        if subprocess.call(["git", "-C", wt, "apply", os.path.join(d, "patch.diff")]) != 0:
+            results[mid] = dict(property=prop, error="patch does not apply to current HEAD (needs re-basing)")
+            print(mid, "PATCH DOES NOT APPLY", flush=True)
+            continue
         env = dict(os.environ, PYTHONPATH=f"{wt}/src", VERIF_REPO_SRC=f"{wt}/src", VERIF_OUT=out)
         order = ([prop] if prop in claimed else []) + [p for p in claimed if p != prop]
         caught = {}
